@@ -2,3 +2,6 @@ NOT_BUILT = {}
 check("C19", "exploration", "runtime monitoring: differential oracle (longest-prefix reference) over generated configuration trees",
       "The real util lookups are run over ~10^5 (quick) generated (tree, path, variable) cases loaded through viper.Set and YAML and compared with an independent longest-prefix model; held-on-what-was-explored, not a proof.",
       "Trusts viper's loading of YAML/Set; values that encode 'unset' (0s, empty string/list) are excluded by the statement's own notion of 'has a value'.")
+check("C18", "exploration", "runtime monitoring: reference-map oracle over recorded lookup/fetch events + Go race detector",
+      "Thousands of generated histories of block events, hit/miss/failed lookups and cleaning runs against the real cache service, judged step by step against a reference map and the header provider's call counter; a concurrent variant runs under -race. Held on the histories explored.",
+      "Handlers and clean job are driven through captured callbacks (fake events provider / scheduler); chain time is a virtual clock.")
